@@ -6,7 +6,7 @@ from concurrent.futures import ThreadPoolExecutor
 V = os.path.dirname(os.path.dirname(os.path.abspath(__file__)))
 L = os.path.join(V, "lean")
 KEY = {"Oracle": "ORACLE", "Refine": "REFINE", "Refine2": "REFINE2", "Refine3": "REFINE3", "Refine4": "REFINE4",
-       "Refine5": "REFINE5", "Deadlock": "DEADLOCK", "Deadlock2": "DEADLOCK2", "Deadlock3": "DEADLOCK3", "OracleRC11": "ORACLE_RC11", "VCSound": "VCSOUND", "Race": "RACE", "Race2": "RACE2"}
+       "Refine5": "REFINE5", "Deadlock": "DEADLOCK", "Deadlock2": "DEADLOCK2", "Deadlock3": "DEADLOCK3", "OracleRC11": "ORACLE_RC11", "VCSound": "VCSOUND", "RaceDecl": "RACEDECL", "Race": "RACE", "Race2": "RACE2"}
 ALLOWED = {"propext", "Classical.choice", "Quot.sound"}
 path = os.path.join(V, "checks", "theorems.json")
 table = json.load(open(path))
